@@ -104,6 +104,8 @@ def mk(t, name, inv):
             inv.append(z3.ForAll([k], z3.Implies(z3.And(0 <= k, k < s.n), t.inv(heap.seq_elem(s, s.arr[k]))), patterns=[s.arr[k]]))
         return s
     if isinstance(t, MapT):
+        if isinstance(t.val, MapT):
+            return MapV(fresh(name + ".map2", z3.ArraySort(I, AII)))
         return MapV(fresh(name + ".map", AII))
     if isinstance(t, ConstT):
         return t.v
